@@ -226,6 +226,11 @@ def run_case(case):
     res = dict(stats={}, viol=[], nontrivial=[], inconclusive=[])
     typ = case["type"]
     cfg = case.get("cfg") or make_cfg(case["seed"], case["i"], typ)
+    if not case.get("cfg") and case["i"] % 5 == 2 and not cfg.get("nsamples"):
+        # a fifth of the un-averaged references (and everything derived from them) run with do_logging=False, as most callers do:
+        # evaluation k is then point k, so the identity of the returned point is decidable without the log
+        gen.without_logging(cfg)
+        res["stats"]["references_without_logging"] = 1
     case["cfg"] = cfg
     ref = one_run(cfg, res, typ)
     nder = 0
